@@ -70,12 +70,16 @@ class Canon:
             params = params[1:]
         for i, p in enumerate(params):
             self._bind_pat(p, ("param", i), "")
+        self.uses = {}        # lid -> [Local nodes]
+        self._inl = {}
         self.mutations = []   # (root lid, field names tuple, source position, node)
         self.loops = []       # (lo, hi) spans of loops
         self.parent = {}
         for n, par in H.walk(body["body"]):
             self.parent[id(n)] = par
             k = n.get("k")
+            if k == "Local":
+                self.uses.setdefault(n["lid"], []).append(n)
             if k == "LetStmt" and n.get("init") is not None:
                 self._bind_pat(n["pat"], ("let", n["init"]), "")
             elif k == "Let":
@@ -90,6 +94,14 @@ class Canon:
                     self._mut(n["recv"], n)
             if k in ("Loop", "While", "For"):
                 self.loops.append((n["sp"][0], n["sp"][1]))
+            if k == "For":
+                self._bind_pat(n["pat"], ("let", n["iter"]), "[*]")
+            elif k == "Match":
+                for a in n["arms"]:
+                    self._bind_pat(a["pat"], ("let", n["scrut"]), "")
+            elif k == "Closure":
+                for i, cp in enumerate(n.get("params") or ()):
+                    self._bind_pat(cp, ("let", {"k": "Lit", "lit": {"str": "closure-arg"}, "sp": n["sp"], "ty": "?"}), "|%d|" % i)
 
     def _mut(self, place, at):
         p = peel(place)
@@ -137,6 +149,16 @@ class Canon:
                     if use_pos is None and lo <= let_pos <= hi and lo <= pos <= hi:
                         return True
         return False
+
+    def snapshot_free(self, lid, d):
+        """True iff at *every* use of the local its initialiser still has the value it had at the let
+        (so the local can be replaced by the initialiser consistently everywhere)."""
+        r = self._inl.get(lid)
+        if r is None:
+            uses = self.uses.get(lid) or [None]
+            r = all(not self._mutated_between(d[1], d[1]["sp"][1], u) for u in uses)
+            self._inl[lid] = r
+        return r
 
     def _chain(self, n):
         out = [n]
@@ -254,7 +276,7 @@ class Canon:
         if self.force and depth < self.max_depth:
             return self.c(d[1], depth + 1) + d[2]
         if self.inline and stable and depth < self.max_depth and self._simple(d[1]) and \
-                (self.inline_state or not self._mutated_between(d[1], d[1]["sp"][1], n)):
+                (self.inline_state or self.snapshot_free(n["lid"], d)):
             # (a let whose initialiser reads state mutated before the use is a snapshot: not inlined)
             return self.c(d[1], depth + 1) + d[2]
         key = n["lid"]
